@@ -4,7 +4,7 @@
 use super::certify::*;
 use crate::common::*;
 use crate::golden::TABLE2;
-use crate::refmodel::Gf;
+use crate::refmodel::{self as rm, Gf};
 use raptorq::{ObjectTransmissionInformation as Oti, SourceBlockEncoder, SourceBlockEncodingPlan};
 use std::sync::atomic::{AtomicU64, Ordering::Relaxed};
 use std::sync::Mutex;
@@ -178,6 +178,27 @@ pub fn run(ctx: &Ctx) -> i32 {
             raptorq::verif::verif_cache::clear();
         }
     });
+    // huge symbols: every route on a few small blocks with symbol sizes beyond 16 KiB (column-striped or
+    // tiled replay paths would only show there); routes must agree and satisfy every relation
+    let huge: Vec<(usize, usize)> = vec![(10, 16385), (12, 20000), (26, 32769), (101, 40001), (55, 65535), (10, 65528)];
+    par_for(huge.len(), |i| {
+        let (K, T) = huge[i];
+        let rel = Relations::new(&gf, rm::params(K).Kp);
+        let seed = ctx.seed() ^ 0x6006 ^ (i as u64) << 8;
+        let mut encs = vec![];
+        for route in 0..6 {
+            if let Some(e) = run_one(ctx, &gf, &rel, K, T, route, seed, &counts) {
+                encs.push((route, e));
+            }
+            ctx.eval(1);
+        }
+        for w in encs.windows(2) {
+            let differ = (0..rm::params(K).L).any(|j| w[0].1.verif_intermediate_symbol(j) != w[1].1.verif_intermediate_symbol(j));
+            if differ {
+                ctx.violation(format!("C06 routes-differ K={K} T={T} {} vs {}", w[0].0, w[1].0), format!("K={K}, T={T}: routes '{}' and '{}' produce different intermediate symbols for the same data", ROUTES[w[0].0], ROUTES[w[1].0]), J::obj(vec![("K", J::i(K)), ("T", J::i(T)), ("route", J::i(w[1].0)), ("data_seed", J::i(seed))]));
+            }
+        }
+    });
     // object-level route: every table size up to the bound as KS with KL = KS + 1
     let n_obj = AtomicU64::new(0);
     let obj_max = ctx.args.ex_u64("object_max", ctx.args.pick(3000, 20000)) as usize;
@@ -204,7 +225,7 @@ pub fn run(ctx: &Ctx) -> i32 {
         ctx.floor("constructions_via_plan_replay", counts[1].load(Relaxed) + counts[4].load(Relaxed) + counts[5].load(Relaxed), 50);
     }
     ctx.finish(
-        "all 477 K' of Table 2, each with K = K' and K = previous K' + 1 (maximum padding), T in {1,3}, random data; encoder built via new (cached plan) for every K' and via with_encoding_plan(generate), unplanned direct solve with sparse threshold 0 / infinity, and plans generated on either matrix back-end then replayed (all K' in thorough; a stratified subset in quick; dense back-end bounded by dense_routes_bounded_to_K'_at_most); the intermediate symbols read through hook H4 must satisfy every LDPC, HDPC and LT relation of the reference model, all routes must yield identical intermediate symbols, and for every table size KS up to object_max an object with blocks of KS+1 and KS symbols is built through Encoder::new (which reuses one plan for consecutive equal-sized blocks) and every block certified. non-trivial = one (K, route) construction; distinct by (K, route)",
+        "all 477 K' of Table 2, each with K = K' and K = previous K' + 1 (maximum padding), T in {1,3} (plus six small blocks with symbol sizes 16 385 ... 65 535 on every route), random data; encoder built via new (cached plan) for every K' and via with_encoding_plan(generate), unplanned direct solve with sparse threshold 0 / infinity, and plans generated on either matrix back-end then replayed (all K' in thorough; a stratified subset in quick; dense back-end bounded by dense_routes_bounded_to_K'_at_most); the intermediate symbols read through hook H4 must satisfy every LDPC, HDPC and LT relation of the reference model, all routes must yield identical intermediate symbols, and for every table size KS up to object_max an object with blocks of KS+1 and KS symbols is built through Encoder::new (which reuses one plan for consecutive equal-sized blocks) and every block certified. non-trivial = one (K, route) construction; distinct by (K, route)",
         &["reference relations from the harness's RFC model + golden tables", "dense-matrix routes for K' above the stated bound are not run (a dense 57000^2 bit matrix solve is out of budget)"],
         vec![("exhaustive", J::B(done == 477))],
     )
